@@ -3,6 +3,7 @@
 package vkit
 
 import (
+	"strings"
 	"encoding/json"
 	"fmt"
 	"hash/fnv"
@@ -167,6 +168,13 @@ func (s *Stats) flush() {
 		// samples may contain something exotic; drop them rather than lose the counts
 		s.Samples = []any{fmt.Sprintf("unmarshalable samples: %v", err)}
 		raw, _ = json.Marshal(s)
+	}
+
+	// the workers of a native fuzzing campaign are processes of their own: every one writes its own file
+	for _, a := range os.Args {
+		if strings.HasPrefix(a, "-test.fuzzworker") {
+			path = fmt.Sprintf("%s.worker-%d", path, os.Getpid())
+		}
 	}
 
 	_ = os.WriteFile(path, raw, 0o644)
